@@ -2028,7 +2028,12 @@ class WSGIRequest:
                     return self._stream.read(size)
 
         self.content = StreamWrapper(self._environ["wsgi.input"])
-        self.match_info = {"path_info": environ["PATH_INFO"]}
+        # PEP-3333 decodes PATH_INFO as iso-8859-1; re-decode it like self.path.
+        self.match_info = {
+            "path_info": environ["PATH_INFO"]
+            .encode("iso-8859-1")
+            .decode(DEFAULT_ENCODING)
+        }
 
     @property
     def can_read_body(self):
